@@ -382,25 +382,25 @@ func truthTableCases() []KleeneCase {
 		return &Node{K: KExists, A: &Node{K: KCur, Next: &Node{K: KKey, S: "a", Next: &Node{K: KFilter, A: cond}}}}
 	}
 	ops := []*Node{
-		eq(lit(1), lit(1)),                                                       // T
-		eq(lit(1), lit(2)),                                                       // F
-		eq(lit(1), &Node{K: KStr, S: "a"}),                                       // U (different types)
-		gt(&Node{K: KBin, S: "/", A: lit(1), B: lit(0)}, lit(0)),                 // U (suppressible error)
-		eq(&Node{K: KCur, Next: &Node{K: KKey, S: "nokey", Next: &Node{K: KKey, S: "x"}}}, lit(1)), // U in strict (structural), F in lax
-		eq(&Node{K: KVar, S: "missing"}, lit(1)),                                 // H
-		&Node{K: KExists, A: &Node{K: KCur}},                                     // T
-		&Node{K: KExists, A: &Node{K: KCur, Next: &Node{K: KKey, S: "nokey"}}},   // F lax / U strict
-		&Node{K: KExists, A: &Node{K: KVar, S: "missing"}},                       // H
+		eq(lit(1), lit(1)),                 // T
+		eq(lit(1), lit(2)),                 // F
+		eq(lit(1), &Node{K: KStr, S: "a"}), // U (different types)
+		gt(&Node{K: KBin, S: "/", A: lit(1), B: lit(0)}, lit(0)),                                                 // U (suppressible error)
+		eq(&Node{K: KCur, Next: &Node{K: KKey, S: "nokey", Next: &Node{K: KKey, S: "x"}}}, lit(1)),               // U in strict (structural), F in lax
+		eq(&Node{K: KVar, S: "missing"}, lit(1)),                                                                 // H
+		&Node{K: KExists, A: &Node{K: KCur}},                                                                     // T
+		&Node{K: KExists, A: &Node{K: KCur, Next: &Node{K: KKey, S: "nokey"}}},                                   // F lax / U strict
+		&Node{K: KExists, A: &Node{K: KVar, S: "missing"}},                                                       // H
 		&Node{K: KExists, A: &Node{K: KCur, Next: &Node{K: KKey, S: "a", Next: &Node{K: KMethod, S: "double"}}}}, // depends on doc
 		&Node{K: KBin, S: "starts with", A: &Node{K: KCur, Next: &Node{K: KKey, S: "a"}}, B: &Node{K: KStr, S: "a"}},
 		&Node{K: KRegex, A: &Node{K: KCur, Next: &Node{K: KKey, S: "a"}}, S: "^a", Flags: ""},
-		&Node{K: KIsUnknown, A: eq(lit(1), &Node{K: KStr, S: "a"})},              // T
-		&Node{K: KUn, S: "!", A: eq(lit(1), &Node{K: KStr, S: "a"})},             // U
+		&Node{K: KIsUnknown, A: eq(lit(1), &Node{K: KStr, S: "a"})},  // T
+		&Node{K: KUn, S: "!", A: eq(lit(1), &Node{K: KStr, S: "a"})}, // U
 		// nested filters that re-bind @ and end in each outcome; the sibling operand then uses @ again
-		nested(eq(&Node{K: KCur}, &Node{K: KVar, S: "missing"})),                                     // H inside a nested filter
-		&Node{K: KIsUnknown, A: nested(eq(&Node{K: KCur}, &Node{K: KVar, S: "missing"}))},            // swallowed H
-		nested(gt(&Node{K: KCur}, &Node{K: KStr, S: "x"})),                                           // U/F inside a nested filter
-		nested(eq(&Node{K: KCur}, &Node{K: KCur})),                                                   // T when @.a exists
+		nested(eq(&Node{K: KCur}, &Node{K: KVar, S: "missing"})),                                       // H inside a nested filter
+		&Node{K: KIsUnknown, A: nested(eq(&Node{K: KCur}, &Node{K: KVar, S: "missing"}))},              // swallowed H
+		nested(gt(&Node{K: KCur}, &Node{K: KStr, S: "x"})),                                             // U/F inside a nested filter
+		nested(eq(&Node{K: KCur}, &Node{K: KCur})),                                                     // T when @.a exists
 		eq(&Node{K: KCur, Next: &Node{K: KKey, S: "a"}}, &Node{K: KCur, Next: &Node{K: KKey, S: "a"}}), // uses @ twice
 		// exists over multi-item producers followed by a rejecting filter, and exists nested in exists
 		&Node{K: KExists, A: &Node{K: KCur, Next: &Node{K: KKey, S: "a", Next: &Node{K: KIdx, Subs: []Sub{{From: lit(0)}, {From: lit(1)}}, Next: &Node{K: KFilter, A: eq(&Node{K: KCur}, lit(1))}}}}},
